@@ -16,7 +16,10 @@ from typing import Iterator, Optional, Sequence
 
 from labtech.exceptions import TaskDiedError
 from labtech.runners.base import run_or_load_task
-from labtech.tasks import get_direct_dependencies
+from labtech import tasks as _lt_tasks
+
+# what the Runner.submit_task docstring prescribes for attaching the results map
+_dependency_objects = getattr(_lt_tasks, 'get_direct_dependency_instances', _lt_tasks.get_direct_dependencies)
 from labtech.types import LabContext, ResultMeta, Runner, RunnerBackend, Storage, Task, TaskResult
 
 from pbt.universe import vu
@@ -103,7 +106,7 @@ class ControlledRunner(Runner):
     def _execute(self, task: Task, task_name: str, use_cache: bool):
         snapshot = dict(self.results_map)   # what a child forked now would see
         self.ctl.log('start', task.name, use_cache, sorted(self._names(snapshot)), type(task).__name__)
-        for dependency_task in get_direct_dependencies(task):
+        for dependency_task in _dependency_objects(task):
             dependency_task._set_results_map(snapshot)
         prev = os.environ.get('VERIF_INPROC')
         os.environ['VERIF_INPROC'] = '1'
